@@ -209,7 +209,11 @@ def check_case(case, ctx=None):
         # client -> server: exactly the application's sends, in order, right wire form
         got_s = [a for t, e, s_, a in h.world.app_log.events if e == 'message']
         exp_s = [expected_arrival(x) for x in csent]
-        if alive and silence is None:
+        # (a script that took a PING, CLOSE or OPEN away from the client may cost the session on
+        # the server side: the heartbeat goes unanswered)
+        ctl_lost = any(f['kind'] in ('replace', 'swallow', 'garbage') and
+                       not f.get('orig_harmless', False) for f in h.faults.fired)
+        if alive and silence is None and not ctl_lost:
             if not same(exp_s, got_s):
                 raise V(impl, 'client-sends-not-transmitted-once-in-order',
                         ftrig + '|' + cl.transport(),
@@ -312,8 +316,9 @@ def silence_start(h, case):
     last = 0.0
     for r in h.log.http:
         req = r.get('req')
-        if r['method'] == 'GET' and r.get('fault') is None and req is not None and req.done \
-                and r.get('status') is not None:
+        if r['method'] == 'GET' and r.get('fault') in (None, 'garbage') and req is not None \
+                and req.done and r.get('status') is not None:
+            # (an answer whose content the script replaced is still something received)
             last = max(last, req.t_end)
     for w in h.log.ws:
         for t, f in w['recv']:
